@@ -1856,9 +1856,10 @@ def ds2(rho, sigma):
     cond = rho < ALPHA_TOL
     rho = np.maximum(ALPHA_TOL, rho)
     b = 2 * (3 * np.pi * np.pi) ** (1.0 / 3)
-    s = np.sqrt(sigma) / (b * rho ** (4.0 / 3) + 1e-16)
-    s2 = s**2
-    res = -8.0 * s2 / (3 * rho + 1e-16), 1 / (b * rho ** (4.0 / 3) + 1e-16) ** 2
+    # exact derivative of get_s2, including its 1e-16 regularizer
+    den = b * rho ** (4.0 / 3) + 1e-16
+    s2 = sigma / den**2
+    res = -8.0 * s2 * b * rho ** (1.0 / 3) / (3 * den), 1 / den**2
     res[0][cond] = 0.0
     res[1][cond] = 0.0
     return res
@@ -1882,8 +1883,10 @@ def dalpha(rho, sigma, tau):
     cond = rho < ALPHA_TOL
     rho = np.maximum(ALPHA_TOL, rho)
     tau0 = get_uniform_tau(rho)
-    tauw = sigma / (8 * rho)
-    dwdn, dwds = -sigma / (8 * rho * rho), 1 / (8 * rho)
+    # same regularized tauw as get_alpha (get_single_orbital_tau)
+    den = 8 * rho + 1e-16
+    tauw = sigma / den
+    dwdn, dwds = -8 * sigma / den**2, 1 / den
     dadn = 5.0 * (tauw - tau) / (3 * tau0 * rho) - dwdn / tau0
     dadsigma = -dwds / tau0
     dadtau = 1 / tau0
